@@ -7,8 +7,8 @@ pub struct P;
 
 pub const VERS: [Ver; 5] = [Ver::V09, Ver::V10, Ver::V11, Ver::V2, Ver::V3];
 pub const HOSTS: [&str; 5] = ["none", "one", "two-orig", "orig+added", "non-textual"];
-pub const CLS: [&str; 9] = ["none", "5", "0", "5-added", "dup-orig", "dup-orig+added", "-1", "abc", "xff"];
-pub const TES: [&str; 5] = ["none", "chunked", "gzip", "non-textual", "Chunked"];
+pub const CLS: [&str; 10] = ["none", "5", "0", "5-added", "dup-orig", "dup-orig+added", "-1", "abc", "xff", "empty"];
+pub const TES: [&str; 6] = ["none", "chunked", "gzip", "non-textual", "Chunked", "chunk"];
 const APIS: [&str; 3] = ["flow", "call-with-body", "call-without-body"];
 
 #[derive(PartialEq, Debug, Clone, Copy)]
@@ -31,7 +31,7 @@ fn model(ver: Ver, method: &str, host: &str, cl: &str, te: &str, despite: bool, 
     if matches!(cl, "dup-orig" | "dup-orig+added") {
         return Exp::Reject("two-content-length");
     }
-    if matches!(cl, "-1" | "abc" | "xff") {
+    if matches!(cl, "-1" | "abc" | "xff" | "empty") {
         return Exp::Reject("non-numeric-content-length");
     }
     let framing = matches!(cl, "5" | "0" | "5-added") || te == "chunked" || te == "Chunked";
@@ -90,12 +90,14 @@ pub fn build(ver: Ver, method: &'static str, host: &str, cl: &str, te: &str, des
         "-1" => c.orig.push(("content-length".into(), b"-1".to_vec())),
         "abc" => c.orig.push(("content-length".into(), b"abc".to_vec())),
         "xff" => c.orig.push(("content-length".into(), b"\xff".to_vec())),
+        "empty" => c.orig.push(("content-length".into(), b"".to_vec())),
         _ => {}
     }
     match te {
         "chunked" => c.orig.push(("transfer-encoding".into(), b"chunked".to_vec())),
         "Chunked" => c.orig.push(("Transfer-Encoding".into(), b"Chunked".to_vec())),
         "gzip" => c.orig.push(("transfer-encoding".into(), b"gzip".to_vec())),
+        "chunk" => c.orig.push(("transfer-encoding".into(), b"chunk".to_vec())),
         "non-textual" => c.orig.push(("transfer-encoding".into(), b"\xfe\xff".to_vec())),
         _ => {}
     }
@@ -159,8 +161,8 @@ fn cell(idx: u64, rec: &mut Rec) {
     let ver = VERS[take(5)];
     let method = METHODS[take(9)];
     let host = HOSTS[take(5)];
-    let cl = CLS[take(9)];
-    let te = TES[take(5)];
+    let cl = CLS[take(10)];
+    let te = TES[take(6)];
     let despite = take(2) == 1;
     let api = APIS[take(3)];
     if despite && api != "flow" {
@@ -225,12 +227,85 @@ fn cell(idx: u64, rec: &mut Rec) {
     }
 }
 
+/// Requests created by following a redirect are requests too: the ones outside the six classes
+/// must be accepted (what the previous request carried as framing no longer counts).
+fn after_redirect_cell(idx: u64, rec: &mut Rec) {
+    use super::heads::*;
+    use crate::wire::split_uri;
+    use ureq_proto::client::flow::RedirectAuthHeaders;
+    let mut x = idx as usize;
+    let mut take = |n: usize| {
+        let v = x % n;
+        x /= n;
+        v
+    };
+    let (method, despite) = [("POST", false), ("PUT", false), ("PATCH", false), ("GET", true), ("DELETE", true), ("GET", false), ("HEAD", false)][take(7)];
+    let status = [301u16, 302, 303, 307, 308][take(5)];
+    let framing = take(3); // 0 content-length on the original, 1 default chunked, 2 content-length: 0
+    let policy = [RedirectAuthHeaders::Never, RedirectAuthHeaders::SameHost][take(2)];
+    let hops = 1 + take(2);
+    let mut cfg = ReqCfg::new(method, "http://a.test/start");
+    cfg.despite = despite;
+    cfg.orig.push(("cookie".into(), b"c=1".to_vec()));
+    let sends = needs_body(method) || despite;
+    if sends {
+        match framing {
+            0 => cfg.orig.push(("content-length".into(), b"3".to_vec())),
+            2 => cfg.orig.push(("content-length".into(), b"0".to_vec())),
+            _ => {}
+        }
+    } else if framing != 1 {
+        return;
+    }
+    let original = split_uri(&cfg.uri);
+    let mut eff = initial_eff(&cfg);
+    let mut flow = match build_flow(&cfg) {
+        Ok(f) => f,
+        Err(e) => return rec.fail("C17/setup", format!("{:?}", e)),
+    };
+    for h in 0..hops {
+        let hop = Hop { status, locations: vec![format!("/next{}", h).into_bytes()], with_body: h == 1 };
+        rec.call();
+        match follow_one(flow, &cfg, &eff, &original, &hop, policy) {
+            Ok(Followed::Next(f, e)) => {
+                flow = f;
+                eff = e;
+            }
+            Ok(Followed::NotFollowed) => {
+                rec.cov("after-redirect/not-followed");
+                return;
+            }
+            Ok(Followed::Error(e)) => return rec.fail("C17/setup", e),
+            Err(e) => {
+                // the hop request itself is one created by a redirect when h > 0
+                return rec.fail(
+                    if h > 0 { "C17/valid-request-refused/after-redirect" } else { "C17/setup" },
+                    format!("{} {} hop {}: {}", method, status, h, e),
+                );
+            }
+        }
+    }
+    let mut s = flow.proceed();
+    let mut buf = vec![0u8; 4096];
+    rec.call();
+    let r1 = s.write(&mut buf);
+    rec.ev(|| format!("{} (despite={}) framing={} -> {} x{} -> {} request: first write {:?}", method, despite, framing, status, hops, eff.method, r1));
+    rec.cov(&format!("after-redirect/{}->{}", method, eff.method));
+    match r1 {
+        Ok(n) if n > 0 && s.can_proceed() => {}
+        other => rec.fail(
+            "C17/valid-request-refused/after-redirect",
+            format!("{} with framing {} redirected by {} (x{}) gives a {} request outside all six classes, yet its first write -> {:?}", method, framing, status, hops, eff.method, other),
+        ),
+    }
+}
+
 impl Property for P {
     fn id(&self) -> &'static str {
         "C17"
     }
     fn rule(&self) -> String {
-        "exhaustive product: 5 versions x 9 methods x 5 Host shapes x 9 Content-Length shapes (valid, zero, caller-added, duplicate orig/orig and orig/added, negative, non-numeric, non-UTF-8) x 5 Transfer-Encoding shapes x despite on/off x {Flow, Call::with_body, Call::without_body}. Each cell is written twice with a 4 KiB buffer and compared with the six-class model of the statement (reject: Err twice, never ready; accept: Ok with bytes, ready). class = api x model class.".into()
+        "exhaustive product: 5 versions x 9 methods x 5 Host shapes x 10 Content-Length shapes (valid, zero, caller-added, duplicate orig/orig and orig/added, negative, non-numeric, non-UTF-8, empty) x 6 Transfer-Encoding shapes x despite on/off x {Flow, Call::with_body, Call::without_body}. Each cell is written twice with a 4 KiB buffer and compared with the six-class model of the statement (reject: Err twice, never ready; accept: Ok with bytes, ready). class = api x model class.".into()
     }
     fn assumptions(&self) -> Vec<String> {
         vec![
@@ -240,10 +315,17 @@ impl Property for P {
         ]
     }
     fn workloads(&self, _tier: Tier) -> Vec<Workload> {
-        vec![Workload::new("table", 5 * 9 * 5 * 9 * 5 * 2 * 3, true, "the full product (cells with despite on a Call API are skipped)")]
+        vec![
+            Workload::new("table", 5 * 9 * 5 * 10 * 6 * 2 * 3, true, "the full product (cells with despite on a Call API are skipped)"),
+            Workload::new("after-redirect", 7 * 5 * 3 * 2 * 2, true, "requests created by following 1..2 redirects from requests that carried framing headers: all valid, all must be accepted"),
+        ]
     }
-    fn run_case(&self, _wl: &str, idx: u64, _seed: u64, rec: &mut Rec) {
-        cell(idx, rec)
+    fn run_case(&self, wl: &str, idx: u64, _seed: u64, rec: &mut Rec) {
+        if wl == "after-redirect" {
+            after_redirect_cell(idx, rec)
+        } else {
+            cell(idx, rec)
+        }
     }
     fn floors(&self, _tier: Tier) -> Vec<(String, u64)> {
         vec![
@@ -258,6 +340,8 @@ impl Property for P {
             ("flow/accept/*".into(), 100),
             ("call-with-body/accept/*".into(), 10),
             ("call-without-body/accept/*".into(), 10),
+            ("after-redirect/POST->GET".into(), 10),
+            ("after-redirect/GET->GET".into(), 10),
         ]
     }
 }
